@@ -53,3 +53,72 @@ def visible (g : G) : List Nat :=
   | none => []
 
 end Datacake.Group
+
+/-! ### Several keyspace names at once
+
+The same machine with the map the group really holds: keyspace NAME ↦ actor.  `name t` is the
+keyspace task `t` uses.  Tasks of different names interfere only through the map and the supply of
+fresh actors. -/
+namespace Datacake.Group
+
+structure GN where
+  map : Nat → Option Nat := fun _ => none    -- keyspace name ↦ actor id
+  next : Nat := 0
+  pc : Nat → Nat := fun _ => 0
+  created : Nat → Nat := fun _ => 0
+  held : Nat → Option Nat := fun _ => none
+  sets : Nat → List Nat := fun _ => []
+  snap : Nat → (Nat → Option Nat) := fun _ => fun _ => none   -- (copy-on-write variant only) the map a task's lookup missed in
+
+/-- One step of task `t` (current tree: the write-locked insert keeps an existing entry OF ITS NAME
+and touches no other name). -/
+def stepN (name : Nat → Nat) (g : GN) (t : Nat) : GN :=
+  match g.pc t with
+  | 0 =>
+    match g.map (name t) with
+    | some a => { g with held := upd g.held t (some a), pc := upd g.pc t 3 }
+    | none => { g with pc := upd g.pc t 1 }
+  | 1 => { g with created := upd g.created t g.next, next := g.next + 1, pc := upd g.pc t 2 }
+  | 2 =>
+    match g.map (name t) with
+    | some a => { g with held := upd g.held t (some a), pc := upd g.pc t 3 }
+    | none => { g with map := upd g.map (name t) (some (g.created t)), held := upd g.held t (some (g.created t)),
+                       pc := upd g.pc t 3 }
+  | 3 =>
+    match g.held t with
+    | some a => { g with sets := upd g.sets a (t :: g.sets a), pc := upd g.pc t 4 }
+    | none => { g with pc := upd g.pc t 4 }
+  | _ => g
+
+def runN (name : Nat → Nat) (schedule : List Nat) : GN := schedule.foldl (stepN name) {}
+
+/-- The set peers synchronise against for keyspace `n`. -/
+def visibleN (g : GN) (n : Nat) : List Nat :=
+  match g.map n with
+  | some a => g.sets a
+  | none => []
+
+/-- A copy-on-write map (seeded change C18-rBm1): the map is replaced as a whole; a task builds the
+next version from the SNAPSHOT its lookup missed in (taken before the two awaits); the re-check
+under the write lock looks at its own name only. -/
+def stepCow (name : Nat → Nat) (g : GN) (t : Nat) : GN :=
+  match g.pc t with
+  | 0 =>
+    match g.map (name t) with
+    | some a => { g with held := upd g.held t (some a), pc := upd g.pc t 3 }
+    | none => { g with snap := upd g.snap t g.map, pc := upd g.pc t 1 }
+  | 1 => { g with created := upd g.created t g.next, next := g.next + 1, pc := upd g.pc t 2 }
+  | 2 =>
+    match g.map (name t) with
+    | some a => { g with held := upd g.held t (some a), pc := upd g.pc t 3 }
+    | none => { g with map := upd (g.snap t) (name t) (some (g.created t)), held := upd g.held t (some (g.created t)),
+                       pc := upd g.pc t 3 }
+  | 3 =>
+    match g.held t with
+    | some a => { g with sets := upd g.sets a (t :: g.sets a), pc := upd g.pc t 4 }
+    | none => { g with pc := upd g.pc t 4 }
+  | _ => g
+
+def runCow (name : Nat → Nat) (schedule : List Nat) : GN := schedule.foldl (stepCow name) {}
+
+end Datacake.Group
